@@ -70,14 +70,14 @@ func init() { Registry["analysis"] = runAnalysis }
 
 // ---------------------------------------------------------------- bundled components
 
-type anEntry struct {
+type analysisEntry struct {
 	name string
 	mk   func() *analysis.Analyzer
 }
 
 // every exported constructor returning *analysis.Analyzer under analysis/analyzer and analysis/lang/*
-func anBundledAnalyzers() []anEntry {
-	return []anEntry{
+func analysisBundledAnalyzers() []analysisEntry {
+	return []analysisEntry{
 		{"keyword", analyzer.NewKeywordAnalyzer}, {"simple", analyzer.NewSimpleAnalyzer},
 		{"standard", analyzer.NewStandardAnalyzer}, {"web", analyzer.NewWebAnalyzer},
 		{"ar", ar.Analyzer}, {"cjk", cjk.Analyzer}, {"ckb", ckb.Analyzer}, {"da", da.Analyzer},
@@ -88,13 +88,13 @@ func anBundledAnalyzers() []anEntry {
 	}
 }
 
-type anTkEntry struct {
+type analysisTkEntry struct {
 	name string
 	mk   func() analysis.Tokenizer
 }
 
-func anBundledTokenizers() []anTkEntry {
-	return []anTkEntry{
+func analysisBundledTokenizers() []analysisTkEntry {
+	return []analysisTkEntry{
 		{"unicode", func() analysis.Tokenizer { return tokenizer.NewUnicodeTokenizer() }},
 		{"letter", func() analysis.Tokenizer { return tokenizer.NewLetterTokenizer() }},
 		{"whitespace", func() analysis.Tokenizer { return tokenizer.NewWhitespaceTokenizer() }},
@@ -113,13 +113,13 @@ func anBundledTokenizers() []anTkEntry {
 	}
 }
 
-type anCfEntry struct {
+type analysisCfEntry struct {
 	name string
 	mk   func() analysis.CharFilter
 }
 
-func anBundledCharFilters() []anCfEntry {
-	return []anCfEntry{
+func analysisBundledCharFilters() []analysisCfEntry {
+	return []analysisCfEntry{
 		{"asciifolding", func() analysis.CharFilter { return char.NewASCIIFoldingFilter() }},
 		{"html", func() analysis.CharFilter { return char.NewHTMLCharFilter() }},
 		{"zwnj", func() analysis.CharFilter { return char.NewZeroWidthNonJoinerCharFilter() }},
@@ -135,13 +135,13 @@ func anBundledCharFilters() []anCfEntry {
 	}
 }
 
-type anTfEntry struct {
+type analysisTfEntry struct {
 	name string
 	mk   func() analysis.TokenFilter
 	lang string // script hint for the generator
 }
 
-func anTokenMapOf(words ...string) analysis.TokenMap {
+func analysisTokenMapOf(words ...string) analysis.TokenMap {
 	m := analysis.NewTokenMap()
 	for _, w := range words {
 		m.AddToken(w)
@@ -149,13 +149,15 @@ func anTokenMapOf(words ...string) analysis.TokenMap {
 	return m
 }
 
-var anCompoundDict = []string{"soft", "ball", "fuss", "fuß", "boll", "klub", "ab", "ba", "abba", "футбол", "мяч", "字", "漢字", "الله", "a", "ﬁ"}
+var analysisCompoundDict = []string{"soft", "ball", "fuss", "fuß", "boll", "klub", "ab", "ba", "abba", "футбол", "мяч", "字", "漢字", "الله", "a", "ﬁ"}
 
 // every exported token-filter constructor that is not modelled exactly (the exact ones are
 // exercised separately, over their parameter ranges)
-func anBundledTokenFilters() []anTfEntry {
-	f := func(name, lang string, mk func() analysis.TokenFilter) anTfEntry { return anTfEntry{name, mk, lang} }
-	out := []anTfEntry{
+func analysisBundledTokenFilters() []analysisTfEntry {
+	f := func(name, lang string, mk func() analysis.TokenFilter) analysisTfEntry {
+		return analysisTfEntry{name, mk, lang}
+	}
+	out := []analysisTfEntry{
 		f("ar.Normalize", "ar", func() analysis.TokenFilter { return ar.NormalizeFilter() }),
 		f("ar.Stemmer", "ar", func() analysis.TokenFilter { return ar.StemmerFilter() }),
 		f("cjk.Bigram(false)", "cjk", func() analysis.TokenFilter { return cjk.NewBigramFilter(false) }),
@@ -192,10 +194,10 @@ func anBundledTokenFilters() []anTfEntry {
 		f("Porter", "en", func() analysis.TokenFilter { return token.NewPorterStemmer() }),
 		f("CamelCase", "en", func() analysis.TokenFilter { return token.NewCamelCaseFilter() }),
 		f("DictCompound(all)", "de", func() analysis.TokenFilter {
-			return token.NewDictionaryCompoundFilter(anTokenMapOf(anCompoundDict...), 3, 1, 15, false)
+			return token.NewDictionaryCompoundFilter(analysisTokenMapOf(analysisCompoundDict...), 3, 1, 15, false)
 		}),
 		f("DictCompound(longest)", "de", func() analysis.TokenFilter {
-			return token.NewDictionaryCompoundFilter(anTokenMapOf(anCompoundDict...), 5, 2, 15, true)
+			return token.NewDictionaryCompoundFilter(analysisTokenMapOf(analysisCompoundDict...), 5, 2, 15, true)
 		}),
 		f("UnicodeNormalize(NFC)", "", func() analysis.TokenFilter { return token.NewUnicodeNormalizeFilter(norm.NFC) }),
 		f("UnicodeNormalize(NFD)", "", func() analysis.TokenFilter { return token.NewUnicodeNormalizeFilter(norm.NFD) }),
@@ -205,13 +207,13 @@ func anBundledTokenFilters() []anTfEntry {
 	return out
 }
 
-type anStopEntry struct {
+type analysisStopEntry struct {
 	lang string
 	mk   func() *token.StopTokensFilter
 }
 
-func anBundledStopFilters() []anStopEntry {
-	return []anStopEntry{
+func analysisBundledStopFilters() []analysisStopEntry {
+	return []analysisStopEntry{
 		{"ar", ar.StopWordsFilter}, {"bg", bg.StopWordsFilter}, {"ca", ca.StopWordsFilter}, {"ckb", ckb.StopWordsFilter},
 		{"cs", cs.StopWordsFilter}, {"da", da.StopWordsFilter}, {"de", de.StopWordsFilter}, {"el", el.StopWordsFilter},
 		{"en", en.StopWordsFilter}, {"es", es.StopWordsFilter}, {"eu", eu.StopWordsFilter}, {"fa", fa.StopWordsFilter},
@@ -222,18 +224,18 @@ func anBundledStopFilters() []anStopEntry {
 	}
 }
 
-type anElisionEntry struct {
+type analysisElisionEntry struct {
 	lang string
 	mk   func() *token.ElisionFilter
 }
 
-func anBundledElisionFilters() []anElisionEntry {
-	return []anElisionEntry{{"fr", fr.ElisionFilter}, {"it", it.ElisionFilter}, {"ca", ca.ElisionFilter}, {"ga", ga.ElisionFilter}}
+func analysisBundledElisionFilters() []analysisElisionEntry {
+	return []analysisElisionEntry{{"fr", fr.ElisionFilter}, {"it", it.ElisionFilter}, {"ca", ca.ElisionFilter}, {"ga", ga.ElisionFilter}}
 }
 
 // ---------------------------------------------------------------- generators
 
-var anVocab = map[string][]string{
+var analysisVocab = map[string][]string{
 	"en": {"The", "quick", "brown", "foxes", "jumped", "over", "lazy", "dog's", "dogs’", "running", "relational", "conditional",
 		"happiness", "and", "is", "a", "John's", "O'Neil", "CamelCaseHTTPServer2Go", "x86_64", "user@example.com",
 		"http://example.com/a?b=c", "#hashTag", "@handle", "3.14", "1,000", "U.S.A.", "don't", "ISBN-13", "KELVIN", "s", "'s", "S"},
@@ -266,38 +268,44 @@ var anVocab = map[string][]string{
 	"eu":  {"Euskal", "Herria", "eta", "da"},
 	"cs":  {"Československo", "a", "je", "příliš"},
 	"gl":  {"Galicia", "e", "unha", "corazóns"},
+	"elision": {"l'avion", "l’avion", "d’été", "d'été", "qu’il", "jusqu’à", "lorsqu’on", "puisqu’elle", "c’est", "j’ai", "n’est", "m’a", "t’es", "s’il",
+		"dell’Italia", "un’altra", "all’ora", "nell’acqua", "sull’isola", "dall’alto", "gl’italiani", "l’Hospitalet", "d’Història", "s’ha", "n’hi",
+		"b’fhearr", "d’fhág", "m’athair", "b'fhearr", "m'athair", "L’Avion", "l’", "’l", "l’’a", "l’l’a", "x’y", "été", "avion"},
 	"special": {"Kelvin", "ȺȾ", "ǅ", "ẞ", "ﬁnance", "ǆ", "İi", "ΐ", "ß", "Ω", "ⅷ", "é", "é", "ö̈", "à́b", "́", "‌", "‍",
 		"\ufeff", " ", " ", "\u0085", "�", "x�y", "\U0001F600", "🇩🇪", "👍🏽", "\u0000", "a\u0000b", "\t", "\r\n"},
 }
 
-var anLangs []string
+var analysisLangs []string
 
 func init() {
-	for k := range anVocab {
-		anLangs = append(anLangs, k)
+	for k := range analysisVocab {
+		analysisLangs = append(analysisLangs, k)
 	}
-	sort.Strings(anLangs)
+	sort.Strings(analysisLangs)
 }
 
-var anSeparators = []string{" ", " ", " ", " ", "  ", "\n", "\t", ", ", ". ", "-", "'", "’", "/", " ", "　", "。", "،", "", "‌", "<b>", "</b>", "&amp;"}
+var analysisSeparators = []string{" ", " ", " ", " ", "  ", "\n", "\t", ", ", ". ", "-", "'", "’", "/", " ", "　", "。", "،", "", "‌", "<b>", "</b>", "&amp;"}
 
 // broken encodings: lone continuation, truncated leads, overlong forms, surrogates, > U+10FFFF, 0xff
-var anBadBytes = [][]byte{{0x80}, {0xbf}, {0xc0, 0x80}, {0xc1, 0xbf}, {0xc3}, {0xe2, 0x82}, {0xe0, 0x80, 0x80}, {0xed, 0xa0, 0x80},
+var analysisBadBytes = [][]byte{{0x80}, {0xbf}, {0xc0, 0x80}, {0xc1, 0xbf}, {0xc3}, {0xe2, 0x82}, {0xe0, 0x80, 0x80}, {0xed, 0xa0, 0x80},
 	{0xed, 0xbf, 0xbf}, {0xf0, 0x9f, 0x98}, {0xf4, 0x90, 0x80, 0x80}, {0xf8, 0x88, 0x80, 0x80, 0x80}, {0xff}, {0xfe}, {0xf0}, {0xef, 0xbf}}
 
-type anInput struct {
+type analysisInput struct {
 	class string
 	data  []byte
 }
 
-func anWords(rng *rand.Rand, lang string, n int) []byte {
+func analysisWords(rng *rand.Rand, lang string, n int) []byte {
 	var sb bytes.Buffer
+	if _, ok := analysisVocab[lang]; !ok {
+		lang = map[string]string{"web": "en", "keyword": "en"}[lang]
+	}
 	for i := 0; i < n; i++ {
 		l := lang
 		if lang == "" || rng.Intn(6) == 0 {
-			l = anLangs[rng.Intn(len(anLangs))]
+			l = analysisLangs[rng.Intn(len(analysisLangs))]
 		}
-		v := anVocab[l]
+		v := analysisVocab[l]
 		w := v[rng.Intn(len(v))]
 		switch rng.Intn(12) {
 		case 0:
@@ -309,35 +317,35 @@ func anWords(rng *rand.Rand, lang string, n int) []byte {
 		}
 		sb.WriteString(w)
 		if i+1 < n {
-			sb.WriteString(anSeparators[rng.Intn(len(anSeparators))])
+			sb.WriteString(analysisSeparators[rng.Intn(len(analysisSeparators))])
 		}
 	}
 	return sb.Bytes()
 }
 
-// anGen produces one input; lang is a script hint ("" = any).
-func anGen(rng *rand.Rand, lang string) anInput {
+// analysisGen produces one input; lang is a script hint ("" = any).
+func analysisGen(rng *rand.Rand, lang string) analysisInput {
 	switch k := rng.Intn(20); {
 	case k < 8:
-		return anInput{"words:" + lang, anWords(rng, lang, 1+rng.Intn(7))}
+		return analysisInput{"words:" + lang, analysisWords(rng, lang, 1+rng.Intn(7))}
 	case k < 10:
-		return anInput{"mixture", anWords(rng, "", 2+rng.Intn(6))}
+		return analysisInput{"mixture", analysisWords(rng, "", 2+rng.Intn(6))}
 	case k == 10: // raw bytes
 		n := rng.Intn(24)
 		p := make([]byte, n)
 		for i := range p {
 			p[i] = byte(rng.Intn(256))
 		}
-		return anInput{"raw-bytes", p}
+		return analysisInput{"raw-bytes", p}
 	case k == 11: // high bytes biased to UTF-8 structure
 		n := 1 + rng.Intn(16)
 		p := make([]byte, n)
 		for i := range p {
 			p[i] = []byte{0x80, 0xbf, 0xc2, 0xc3, 0xe0, 0xe2, 0xed, 0xef, 0xf0, 0xf4, 0xff, 'a', ' ', 0x99, 0xa0}[rng.Intn(15)]
 		}
-		return anInput{"raw-bytes", p}
+		return analysisInput{"raw-bytes", p}
 	case k == 12 || k == 13: // truncated rune: valid text cut at an arbitrary byte
-		p := anWords(rng, lang, 1+rng.Intn(4))
+		p := analysisWords(rng, lang, 1+rng.Intn(4))
 		if len(p) > 1 {
 			cut := 1 + rng.Intn(len(p)-1)
 			if rng.Intn(2) == 0 {
@@ -346,17 +354,17 @@ func anGen(rng *rand.Rand, lang string) anInput {
 				p = p[cut:]
 			}
 		}
-		return anInput{"truncated-rune", append([]byte{}, p...)}
+		return analysisInput{"truncated-rune", append([]byte{}, p...)}
 	case k == 14 || k == 15: // valid text with broken encodings spliced in
-		p := anWords(rng, lang, 1+rng.Intn(4))
+		p := analysisWords(rng, lang, 1+rng.Intn(4))
 		for j := 0; j < 1+rng.Intn(3); j++ {
 			at := rng.Intn(len(p) + 1)
-			bad := anBadBytes[rng.Intn(len(anBadBytes))]
+			bad := analysisBadBytes[rng.Intn(len(analysisBadBytes))]
 			q := append([]byte{}, p[:at]...)
 			q = append(q, bad...)
 			p = append(q, p[at:]...)
 		}
-		return anInput{"invalid-spliced", p}
+		return analysisInput{"invalid-spliced", p}
 	case k == 16: // apostrophes / elisions
 		v := []string{"l'", "d’", "qu'", "'", "’", "s", "S", "a", "dell'", "un’", "b'", "x", "'s", "’S", "＇s", "''", "l'l'a", "m'"}
 		var sb bytes.Buffer
@@ -366,38 +374,42 @@ func anGen(rng *rand.Rand, lang string) anInput {
 				sb.WriteByte(' ')
 			}
 		}
-		return anInput{"apostrophes", sb.Bytes()}
+		return analysisInput{"apostrophes", sb.Bytes()}
 	case k == 17: // long token
-		v := anVocab[anLangs[rng.Intn(len(anLangs))]]
+		v := analysisVocab[analysisLangs[rng.Intn(len(analysisLangs))]]
 		w := v[rng.Intn(len(v))]
-		return anInput{"long-token", []byte(strings.Repeat(w, 20+rng.Intn(40)))}
+		long := strings.Repeat(w, 20+rng.Intn(40))
+		if len(long) > 150 {
+			long = long[:150] // may cut a rune: a long token ending in a truncated rune
+		}
+		return analysisInput{"long-token", []byte(long)}
 	case k == 18:
 		s := []string{"", " ", "  \t\n", "a", "é", "漢", "\xff", "'", "’", "s", "ﾞ", "́", "-", ".", "1", "A", "İ", "Σ", "ς", "K"}
-		return anInput{"tiny", []byte(s[rng.Intn(len(s))])}
+		return analysisInput{"tiny", []byte(s[rng.Intn(len(s))])}
 	default: // markup and web shapes
 		s := []string{"<p class=\"x\">Hello <b>World</b></p>", "<a href='x'>l'avion</a> &nbsp;", "mail me: a.b@c-d.org now", "see www.example.com/x(y)z.",
 			"#tag @user #漢字", "<>", "<<b>>", "a<b", "x > y < z", "<!-- c -->text", "HTTP://EXAMPLE.COM/ÄÖ"}
-		return anInput{"markup", []byte(s[rng.Intn(len(s))])}
+		return analysisInput{"markup", []byte(s[rng.Intn(len(s))])}
 	}
 }
 
 // fixed inputs every component sees
-func anFixed() []anInput {
-	fx := []anInput{
+func analysisFixed() []analysisInput {
+	fx := []analysisInput{
 		{"empty", []byte{}}, {"tiny", []byte(" ")}, {"tiny", []byte("a")}, {"raw-bytes", []byte{0xff}}, {"raw-bytes", []byte{0xff, 0xff}},
 		{"invalid-spliced", []byte("a\xffb c\xe2\x82 d")}, {"invalid-spliced", []byte("漢\xff字 ab")}, {"invalid-spliced", []byte("漢\xff")},
 		{"invalid-spliced", []byte("Abc\xc3 Def\xed\xa0\x80Ghi")}, {"truncated-rune", []byte("caf\xc3")}, {"truncated-rune", []byte("\xa9 caf\xc3\xa9")},
 		{"words:special", []byte("Kelvin ȺȾ ΟΔΥΣΣΕΥΣ İstanbul")}, {"words:special", []byte("ab � cd")},
 		{"apostrophes", []byte("l'avion d’été John's 's ' ’")}, {"words:cjk", []byte("ｶﾞｷﾞ ﾞ ﾊﾟ こんにちは世界 ｈｅｌｌｏ")},
-		{"words:ar", []byte("ﷺ وَالكِتَابُ ـــ")}, {"words:hi", []byte("र्‍ ऍ ॐ क़")}, {"long-token", []byte(strings.Repeat("ab", 300))},
-		{"long-token", []byte(strings.Repeat("漢", 200))},
+		{"words:ar", []byte("ﷺ وَالكِتَابُ ـــ")}, {"words:hi", []byte("र्‍ ऍ ॐ क़")}, {"long-token", []byte(strings.Repeat("ab", 130))},
+		{"long-token", []byte(strings.Repeat("漢", 70))},
 	}
 	return fx
 }
 
 // ---------------------------------------------------------------- snapshots and Coq printing
 
-type anTokSnap struct {
+type analysisTokSnap struct {
 	Start, End int
 	Term       []byte
 	Incr       int
@@ -405,18 +417,18 @@ type anTokSnap struct {
 	KW         bool
 }
 
-func anSnapTokens(ts analysis.TokenStream) []anTokSnap {
-	out := make([]anTokSnap, len(ts))
+func analysisSnapTokens(ts analysis.TokenStream) []analysisTokSnap {
+	out := make([]analysisTokSnap, len(ts))
 	for i, t := range ts {
-		out[i] = anTokSnap{t.Start, t.End, append([]byte{}, t.Term...), t.PositionIncr, int(t.Type), t.KeyWord}
+		out[i] = analysisTokSnap{t.Start, t.End, append([]byte{}, t.Term...), t.PositionIncr, int(t.Type), t.KeyWord}
 	}
 	return out
 }
 
-// anThaw builds a fresh token stream from a snapshot: terms that are the slice of `text` at their
+// analysisThaw builds a fresh token stream from a snapshot: terms that are the slice of `text` at their
 // offsets become sub-slices of one fresh copy of the text (as a tokenizer hands them over, with
 // the capacity reaching to the end of the buffer), the others private copies (cap = len)
-func anThaw(text []byte, snap []anTokSnap) analysis.TokenStream {
+func analysisThaw(text []byte, snap []analysisTokSnap) analysis.TokenStream {
 	buf := append(make([]byte, 0, len(text)), text...)
 	out := make(analysis.TokenStream, len(snap))
 	for i, s := range snap {
@@ -432,7 +444,7 @@ func anThaw(text []byte, snap []anTokSnap) analysis.TokenStream {
 	return out
 }
 
-func anSnapsEqual(a, b []anTokSnap) bool {
+func analysisSnapsEqual(a, b []analysisTokSnap) bool {
 	if len(a) != len(b) {
 		return false
 	}
@@ -445,26 +457,57 @@ func anSnapsEqual(a, b []anTokSnap) bool {
 	return true
 }
 
-func anCoqTok(t anTokSnap) string {
-	return fmt.Sprintf("Tk %s %s %s %s %d %s", cq.I(t.Start), cq.I(t.End), cq.Bytes(t.Term), cq.I(t.Incr), t.Type, cq.B(t.KW))
+// analysisBytes prints a byte string with the identifiers x00..xff of Analysis/ByteNames.v
+func analysisBytes(p []byte) string {
+	var sb strings.Builder
+	sb.WriteByte('[')
+	for i, c := range p {
+		if i > 0 {
+			sb.WriteByte(';')
+		}
+		fmt.Fprintf(&sb, "x%02x", c)
+	}
+	sb.WriteByte(']')
+	return sb.String()
 }
 
-func anCoqStream(ts []anTokSnap) string {
-	it := make([]string, len(ts))
-	for i, t := range ts {
-		it[i] = anCoqTok(t)
+func analysisBytesList(ps [][]byte) string {
+	it := make([]string, len(ps))
+	for i, p := range ps {
+		it[i] = analysisBytes(p)
 	}
 	return cq.List(it)
 }
 
-func anCoqOptStream(ts []anTokSnap, panicked bool) string {
+// analysisBounds prints what tok_ok reads of a stream: (start, end, increment) per token
+func analysisBounds(ts []analysisTokSnap) string {
+	it := make([]string, len(ts))
+	for i, t := range ts {
+		it[i] = fmt.Sprintf("(%s,%s,%s)", cq.I(t.Start), cq.I(t.End), cq.I(t.Incr))
+	}
+	return cq.List(it)
+}
+
+func analysisCoqTok(t analysisTokSnap) string {
+	return fmt.Sprintf("Tk %s %s %s %s %d %s", cq.I(t.Start), cq.I(t.End), analysisBytes(t.Term), cq.I(t.Incr), t.Type, cq.B(t.KW))
+}
+
+func analysisCoqStream(ts []analysisTokSnap) string {
+	it := make([]string, len(ts))
+	for i, t := range ts {
+		it[i] = analysisCoqTok(t)
+	}
+	return cq.List(it)
+}
+
+func analysisCoqOptStream(ts []analysisTokSnap, panicked bool) string {
 	if panicked {
 		return cq.None()
 	}
-	return cq.Some(anCoqStream(ts))
+	return cq.Some(analysisCoqStream(ts))
 }
 
-func anShowTokens(ts []anTokSnap) string {
+func analysisShowTokens(ts []analysisTokSnap) string {
 	var sb strings.Builder
 	for i, t := range ts {
 		if i >= 12 {
@@ -476,8 +519,8 @@ func anShowTokens(ts []anTokSnap) string {
 	return sb.String()
 }
 
-// anTokOK: the property's clause for one stream against the length of the text the tokenizer saw
-func anTokOK(L int, ts []anTokSnap) (bool, string) {
+// analysisTokOK: the property's clause for one stream against the length of the text the tokenizer saw
+func analysisTokOK(L int, ts []analysisTokSnap) (bool, string) {
 	for i, t := range ts {
 		if t.Start < 0 || t.Start > t.End || t.End > L {
 			return false, fmt.Sprintf("token %d %q has offsets [%d,%d) outside 0 <= start <= end <= %d", i, t.Term, t.Start, t.End, L)
@@ -489,7 +532,7 @@ func anTokOK(L int, ts []anTokSnap) (bool, string) {
 	return true, ""
 }
 
-func anHasInvalidUTF8(ts []anTokSnap) bool {
+func analysisHasInvalidUTF8(ts []analysisTokSnap) bool {
 	for _, t := range ts {
 		if !utf8.Valid(t.Term) {
 			return true
@@ -499,7 +542,7 @@ func anHasInvalidUTF8(ts []anTokSnap) bool {
 }
 
 // offsets in text order: for a before b, start a <= end b (see Pipeline.v `ordered`)
-func anOrderedSnap(ts []anTokSnap) bool {
+func analysisOrderedSnap(ts []analysisTokSnap) bool {
 	for i := range ts {
 		for j := i + 1; j < len(ts); j++ {
 			if ts[i].Start > ts[j].End {
@@ -512,31 +555,32 @@ func anOrderedSnap(ts []anTokSnap) bool {
 
 // ---------------------------------------------------------------- engine state
 
-type anEngine struct {
-	o   Opts
-	rng *rand.Rand
-	w   *cq.Writer
+type analysisEngine struct {
+	o    Opts
+	rng  *rand.Rand
+	w    *cq.Writer
+	seen map[string]bool // Coq terms of the fixed probes already written
 }
 
 // guarded runs f under recover and a watchdog.  A panic is reported as an oracle failure
-// `analysis-panic:<component>` (or the more specific key chosen by anKeyFor); a hang aborts.
-func (e *anEngine) guarded(component, class string, input interface{}, invalid bool, f func()) bool {
+// `analysis-panic:<component>` (or the more specific key chosen by analysisKeyFor); a hang aborts.
+func (e *analysisEngine) guarded(component, class string, input interface{}, invalid bool, f func()) bool {
 	fin, pan := cq.Guard(30*time.Second, f)
 	e.w.OracleEval(1)
 	if !fin {
 		e.w.Abort("analysis-hang:"+component, "call did not return within 30s", input)
 	}
 	if pan != nil {
-		e.w.OracleFail(anKeyFor("panic", component, invalid), fmt.Sprintf("panic: %v", pan), map[string]interface{}{"component": component, "class": class, "input": input})
+		e.w.OracleFail(analysisKeyFor("panic", component, invalid), fmt.Sprintf("panic: %v", pan), map[string]interface{}{"component": component, "class": class, "input": input})
 		return false
 	}
 	return true
 }
 
-// anKeyFor names an oracle failure.  Failures that belong to a recorded finding get that finding's
+// analysisKeyFor names an oracle failure.  Failures that belong to a recorded finding get that finding's
 // key, and only for the input class the finding describes; everything else gets a generic key
 // (which is in no findings file and therefore fails the check).
-func anKeyFor(clause, component string, invalidUTF8 bool) string {
+func analysisKeyFor(clause, component string, invalidUTF8 bool) string {
 	switch clause {
 	case "panic":
 		return "analysis-panic:" + component
@@ -549,35 +593,35 @@ func anKeyFor(clause, component string, invalidUTF8 bool) string {
 	return "analysis-" + clause + ":" + component
 }
 
-func anQ(p []byte) string { return fmt.Sprintf("%q", p) }
+func analysisQ(p []byte) string { return fmt.Sprintf("%q", p) }
 
 // ---------------------------------------------------------------- (b) analyzers, stage by stage
 
 // runStages runs one analyzer on one input stage by stage; it returns the text the tokenizer
 // saw and the snapshot after every stage (nil, nil when a stage panicked).
-func (e *anEngine) runStages(name string, a *analysis.Analyzer, in anInput) (seen []byte, stages [][]anTokSnap) {
+func (e *analysisEngine) runStages(name string, a *analysis.Analyzer, in analysisInput) (seen []byte, stages [][]analysisTokSnap) {
 	text := append([]byte{}, in.data...)
 	okAll := true
 	for i, cf := range a.CharFilters {
 		cf := cf
-		if !e.guarded(fmt.Sprintf("%s/char[%d]%T", name, i, cf), in.class, anQ(in.data), false, func() { text = cf.Filter(text) }) {
+		if !e.guarded(fmt.Sprintf("%s/char[%d]%T", name, i, cf), in.class, analysisQ(in.data), false, func() { text = cf.Filter(text) }) {
 			return nil, nil
 		}
 	}
 	seen = append([]byte{}, text...)
 	var toks analysis.TokenStream
-	if !e.guarded(fmt.Sprintf("%s/%T", name, a.Tokenizer), in.class, anQ(in.data), false, func() { toks = a.Tokenizer.Tokenize(text) }) {
+	if !e.guarded(fmt.Sprintf("%s/%T", name, a.Tokenizer), in.class, analysisQ(in.data), false, func() { toks = a.Tokenizer.Tokenize(text) }) {
 		return nil, nil
 	}
-	stages = append(stages, anSnapTokens(toks))
+	stages = append(stages, analysisSnapTokens(toks))
 	for i, tf := range a.TokenFilters {
 		tf := tf
 		comp := fmt.Sprintf("%s/filter[%d]%T", name, i, tf)
-		if !e.guarded(comp, in.class, anQ(in.data), false, func() { toks = tf.Filter(toks) }) {
+		if !e.guarded(comp, in.class, analysisQ(in.data), false, func() { toks = tf.Filter(toks) }) {
 			okAll = false
 			break
 		}
-		stages = append(stages, anSnapTokens(toks))
+		stages = append(stages, analysisSnapTokens(toks))
 	}
 	if !okAll {
 		return nil, nil
@@ -585,11 +629,11 @@ func (e *anEngine) runStages(name string, a *analysis.Analyzer, in anInput) (see
 	return seen, stages
 }
 
-func (e *anEngine) analyzers(perAnalyzer int) {
-	for _, ae := range anBundledAnalyzers() {
-		inputs := append([]anInput{}, anFixed()...)
+func (e *analysisEngine) analyzers(perAnalyzer int) {
+	for _, ae := range analysisBundledAnalyzers() {
+		inputs := append([]analysisInput{}, analysisFixed()...)
 		for i := 0; i < perAnalyzer; i++ {
-			inputs = append(inputs, anGen(e.rng, ae.name))
+			inputs = append(inputs, analysisGen(e.rng, ae.name))
 		}
 		for _, in := range inputs {
 			e.w.Count("input:"+strings.SplitN(in.class, ":", 2)[0], 1)
@@ -603,9 +647,9 @@ func (e *anEngine) analyzers(perAnalyzer int) {
 			good := true
 			for i, t := range stages[0] {
 				if t.Start < 0 || t.Start > t.End || t.End > len(seen) || !bytes.Equal(t.Term, seen[t.Start:t.End]) || t.Incr < 0 {
-					e.w.OracleFail(anKeyFor("pure-tokenizer", fmt.Sprintf("%s/%T", ae.name, a.Tokenizer), false),
+					e.w.OracleFail(analysisKeyFor("pure-tokenizer", fmt.Sprintf("%s/%T", ae.name, a.Tokenizer), false),
 						fmt.Sprintf("token %d: term %q is not the input slice [%d,%d) (text of %d bytes), or its increment %d is negative", i, t.Term, t.Start, t.End, len(seen), t.Incr),
-						map[string]interface{}{"analyzer": ae.name, "class": in.class, "input": anQ(in.data)})
+						map[string]interface{}{"analyzer": ae.name, "class": in.class, "input": analysisQ(in.data)})
 					good = false
 					break
 				}
@@ -613,28 +657,28 @@ func (e *anEngine) analyzers(perAnalyzer int) {
 			// every stage keeps the offsets within the text the tokenizer saw and the increments >= 0
 			for k := 1; k < len(stages) && good; k++ {
 				e.w.OracleEval(1)
-				if ok, why := anTokOK(len(seen), stages[k]); !ok {
+				if ok, why := analysisTokOK(len(seen), stages[k]); !ok {
 					comp := fmt.Sprintf("%s/filter[%d]%T", ae.name, k-1, a.TokenFilters[k-1])
-					e.w.OracleFail(anKeyFor("offsets", comp, false), why, map[string]interface{}{"analyzer": ae.name, "class": in.class, "input": anQ(in.data), "tokens": anShowTokens(stages[k])})
+					e.w.OracleFail(analysisKeyFor("offsets", comp, false), why, map[string]interface{}{"analyzer": ae.name, "class": in.class, "input": analysisQ(in.data), "tokens": analysisShowTokens(stages[k])})
 					good = false
 				}
 			}
 			// determinism: the whole analyzer, twice, on fresh copies, equals the staged run
 			final := stages[len(stages)-1]
 			for rep := 0; rep < 2; rep++ {
-				var again []anTokSnap
+				var again []analysisTokSnap
 				b := ae.mk()
 				if rep == 1 {
 					b = a // the same instance again
 				}
-				if !e.guarded(ae.name+"/Analyze", in.class, anQ(in.data), false, func() { again = anSnapTokens(b.Analyze(append([]byte{}, in.data...))) }) {
+				if !e.guarded(ae.name+"/Analyze", in.class, analysisQ(in.data), false, func() { again = analysisSnapTokens(b.Analyze(append([]byte{}, in.data...))) }) {
 					good = false
 					break
 				}
 				e.w.OracleEval(1)
-				if !anSnapsEqual(final, again) {
-					e.w.OracleFail(anKeyFor("determinism", ae.name, false), "two analyses of the same bytes differ",
-						map[string]interface{}{"analyzer": ae.name, "class": in.class, "input": anQ(in.data), "first": anShowTokens(final), "second": anShowTokens(again)})
+				if !analysisSnapsEqual(final, again) {
+					e.w.OracleFail(analysisKeyFor("determinism", ae.name, false), "two analyses of the same bytes differ",
+						map[string]interface{}{"analyzer": ae.name, "class": in.class, "input": analysisQ(in.data), "first": analysisShowTokens(final), "second": analysisShowTokens(again)})
 					good = false
 					break
 				}
@@ -644,23 +688,23 @@ func (e *anEngine) analyzers(perAnalyzer int) {
 				orig := append([]byte{}, in.data...)
 				val := append([]byte{}, in.data...)
 				fld := bluge.NewTextFieldBytes("f", val).WithAnalyzer(ae.mk()).StoreValue().SearchTermPositions()
-				if e.guarded(ae.name+"/TermField.Analyze", in.class, anQ(in.data), false, func() { fld.Analyze(0) }) {
+				if e.guarded(ae.name+"/TermField.Analyze", in.class, analysisQ(in.data), false, func() { fld.Analyze(0) }) {
 					e.w.OracleEval(1)
 					if !bytes.Equal(fld.Value(), orig) {
-						e.w.OracleFail(anKeyFor("stored-value", ae.name, false), "the stored field value changed during analysis",
-							map[string]interface{}{"analyzer": ae.name, "class": in.class, "input": anQ(in.data), "after": anQ(fld.Value())})
+						e.w.OracleFail(analysisKeyFor("stored-value", ae.name, false), "the stored field value changed during analysis",
+							map[string]interface{}{"analyzer": ae.name, "class": in.class, "input": analysisQ(in.data), "after": analysisQ(fld.Value())})
 					}
 				}
 			}
 			if !good {
 				continue // the failing stage is in oracle.jsonl; no Coq case that would only repeat it
 			}
-			st := make([]string, len(stages))
-			for i, s := range stages {
-				st[i] = anCoqStream(s)
+			st := make([]string, 0, len(stages))
+			for _, s := range stages[1:] {
+				st = append(st, analysisBounds(s))
 			}
-			e.w.Add(fmt.Sprintf("CRun %s %s", cq.Bytes(seen), cq.List(st)), "run:"+ae.name, len(final) > 0,
-				map[string]interface{}{"analyzer": ae.name, "class": in.class, "input": anQ(in.data), "tokens": len(final)})
+			e.w.Add(fmt.Sprintf("CRun %s %s %s", analysisBytes(seen), analysisCoqStream(stages[0]), cq.List(st)), "run:"+ae.name, len(final) > 0,
+				map[string]interface{}{"analyzer": ae.name, "class": in.class, "input": analysisQ(in.data), "tokens": len(final)})
 		}
 	}
 }
@@ -668,7 +712,7 @@ func (e *anEngine) analyzers(perAnalyzer int) {
 // ---------------------------------------------------------------- tokenizers, char filters
 
 // runeTable tabulates a rune predicate for the runes DecodeRune meets while walking p
-func anRuneBoolTable(p []byte, f func(rune) bool) string {
+func analysisRuneBoolTable(p []byte, f func(rune) bool) string {
 	seen := map[rune]bool{}
 	var it []string
 	for i := 0; i < len(p); {
@@ -682,38 +726,38 @@ func anRuneBoolTable(p []byte, f func(rune) bool) string {
 	return cq.List(it)
 }
 
-func notSpaceRune(r rune) bool { return !unicode.IsSpace(r) }
+func analysisNotSpaceRune(r rune) bool { return !unicode.IsSpace(r) }
 
-func (e *anEngine) tokenizers(per int) {
-	exact := map[string]func(rune) bool{"letter": unicode.IsLetter, "whitespace": notSpaceRune, "character-digit": unicode.IsDigit}
-	for _, te := range anBundledTokenizers() {
-		inputs := append([]anInput{}, anFixed()...)
+func (e *analysisEngine) tokenizers(per int) {
+	exact := map[string]func(rune) bool{"letter": unicode.IsLetter, "whitespace": analysisNotSpaceRune, "character-digit": unicode.IsDigit}
+	for _, te := range analysisBundledTokenizers() {
+		inputs := append([]analysisInput{}, analysisFixed()...)
 		for i := 0; i < per; i++ {
-			inputs = append(inputs, anGen(e.rng, ""))
+			inputs = append(inputs, analysisGen(e.rng, ""))
 		}
 		for _, in := range inputs {
 			text := append([]byte{}, in.data...)
-			var s1, s2 []anTokSnap
-			if !e.guarded("tokenizer:"+te.name, in.class, anQ(in.data), !utf8.Valid(in.data), func() { s1 = anSnapTokens(te.mk().Tokenize(text)) }) {
+			var s1, s2 []analysisTokSnap
+			if !e.guarded("tokenizer:"+te.name, in.class, analysisQ(in.data), !utf8.Valid(in.data), func() { s1 = analysisSnapTokens(te.mk().Tokenize(text)) }) {
 				continue
 			}
-			if !e.guarded("tokenizer:"+te.name, in.class, anQ(in.data), !utf8.Valid(in.data), func() { s2 = anSnapTokens(te.mk().Tokenize(append([]byte{}, in.data...))) }) {
+			if !e.guarded("tokenizer:"+te.name, in.class, analysisQ(in.data), !utf8.Valid(in.data), func() { s2 = analysisSnapTokens(te.mk().Tokenize(append([]byte{}, in.data...))) }) {
 				continue
 			}
 			e.w.OracleEval(3)
 			if !bytes.Equal(text, in.data) {
-				e.w.OracleFail(anKeyFor("input-mutated", "tokenizer:"+te.name, false), "the tokenizer changed its input", anQ(in.data))
+				e.w.OracleFail(analysisKeyFor("input-mutated", "tokenizer:"+te.name, false), "the tokenizer changed its input", analysisQ(in.data))
 			}
-			if !anSnapsEqual(s1, s2) {
-				e.w.OracleFail(anKeyFor("determinism", "tokenizer:"+te.name, false), "two tokenizations differ", anQ(in.data))
+			if !analysisSnapsEqual(s1, s2) {
+				e.w.OracleFail(analysisKeyFor("determinism", "tokenizer:"+te.name, false), "two tokenizations differ", analysisQ(in.data))
 				continue
 			}
 			good := true
 			for i, t := range s1 {
 				if t.Start < 0 || t.Start > t.End || t.End > len(in.data) || !bytes.Equal(t.Term, in.data[t.Start:t.End]) || t.Incr < 0 {
-					e.w.OracleFail(anKeyFor("pure-tokenizer", "tokenizer:"+te.name, false),
+					e.w.OracleFail(analysisKeyFor("pure-tokenizer", "tokenizer:"+te.name, false),
 						fmt.Sprintf("token %d: term %q is not the input slice [%d,%d) (input of %d bytes), or its increment %d is negative", i, t.Term, t.Start, t.End, len(in.data), t.Incr),
-						map[string]interface{}{"class": in.class, "input": anQ(in.data)})
+						map[string]interface{}{"class": in.class, "input": analysisQ(in.data)})
 					good = false
 					break
 				}
@@ -721,36 +765,36 @@ func (e *anEngine) tokenizers(per int) {
 			if !good {
 				continue
 			}
-			meta := map[string]interface{}{"tokenizer": te.name, "class": in.class, "input": anQ(in.data)}
+			meta := map[string]interface{}{"tokenizer": te.name, "class": in.class, "input": analysisQ(in.data)}
 			if pred, ok := exact[te.name]; ok {
-				e.w.Add(fmt.Sprintf("CCharTok %s %s %s", anRuneBoolTable(in.data, pred), cq.Bytes(in.data), anCoqStream(s1)), "exact:tokenizer:"+te.name, len(s1) > 0, meta)
+				e.w.Add(fmt.Sprintf("CCharTok %s %s %s", analysisRuneBoolTable(in.data, pred), analysisBytes(in.data), analysisCoqStream(s1)), "exact:tokenizer:"+te.name, len(s1) > 0, meta)
 			} else if te.name == "single" {
-				e.w.Add(fmt.Sprintf("CSingle %s %s", cq.Bytes(in.data), anCoqStream(s1)), "exact:tokenizer:single", len(in.data) > 0, meta)
+				e.w.Add(fmt.Sprintf("CSingle %s %s", analysisBytes(in.data), analysisCoqStream(s1)), "exact:tokenizer:single", len(in.data) > 0, meta)
 			} else {
-				e.w.Add(fmt.Sprintf("CPure %s %s", cq.Bytes(in.data), anCoqStream(s1)), "pure:"+te.name, len(s1) > 0, meta)
+				e.w.Add(fmt.Sprintf("CPure %s %s", analysisBytes(in.data), analysisCoqStream(s1)), "pure:"+te.name, len(s1) > 0, meta)
 			}
 		}
 	}
 }
 
-func (e *anEngine) charFilters(per int) {
-	for _, ce := range anBundledCharFilters() {
-		inputs := append([]anInput{}, anFixed()...)
+func (e *analysisEngine) charFilters(per int) {
+	for _, ce := range analysisBundledCharFilters() {
+		inputs := append([]analysisInput{}, analysisFixed()...)
 		for i := 0; i < per; i++ {
-			inputs = append(inputs, anGen(e.rng, ""))
+			inputs = append(inputs, analysisGen(e.rng, ""))
 		}
 		for _, in := range inputs {
 			var o1, o2 []byte
 			arg := append([]byte{}, in.data...)
-			if !e.guarded("charfilter:"+ce.name, in.class, anQ(in.data), !utf8.Valid(in.data), func() { o1 = append([]byte{}, ce.mk().Filter(arg)...) }) {
+			if !e.guarded("charfilter:"+ce.name, in.class, analysisQ(in.data), !utf8.Valid(in.data), func() { o1 = append([]byte{}, ce.mk().Filter(arg)...) }) {
 				continue
 			}
-			if !e.guarded("charfilter:"+ce.name, in.class, anQ(in.data), !utf8.Valid(in.data), func() { o2 = ce.mk().Filter(append([]byte{}, in.data...)) }) {
+			if !e.guarded("charfilter:"+ce.name, in.class, analysisQ(in.data), !utf8.Valid(in.data), func() { o2 = ce.mk().Filter(append([]byte{}, in.data...)) }) {
 				continue
 			}
 			e.w.OracleEval(1)
 			if !bytes.Equal(o1, o2) {
-				e.w.OracleFail(anKeyFor("determinism", "charfilter:"+ce.name, false), "two runs differ", anQ(in.data))
+				e.w.OracleFail(analysisKeyFor("determinism", "charfilter:"+ce.name, false), "two runs differ", analysisQ(in.data))
 				continue
 			}
 			// the filter in front of a tokenizer: offsets refer to the rewritten text
@@ -762,7 +806,7 @@ func (e *anEngine) charFilters(per int) {
 			}
 			e.w.OracleEval(1)
 			if !bytes.Equal(seen, o1) {
-				e.w.OracleFail(anKeyFor("determinism", "charfilter:"+ce.name, false), "filter output differs inside the analyzer", anQ(in.data))
+				e.w.OracleFail(analysisKeyFor("determinism", "charfilter:"+ce.name, false), "filter output differs inside the analyzer", analysisQ(in.data))
 				continue
 			}
 			good := true
@@ -771,16 +815,16 @@ func (e *anEngine) charFilters(per int) {
 					good = false
 				}
 			}
-			if ok, _ := anTokOK(len(seen), stages[1]); !ok {
+			if ok, _ := analysisTokOK(len(seen), stages[1]); !ok {
 				good = false
 			}
 			e.w.OracleEval(1)
 			if !good {
-				e.w.OracleFail(anKeyFor("offsets", "charfilter:"+ce.name, false), "offsets do not refer to the text the tokenizer saw", anQ(in.data))
+				e.w.OracleFail(analysisKeyFor("offsets", "charfilter:"+ce.name, false), "offsets do not refer to the text the tokenizer saw", analysisQ(in.data))
 				continue
 			}
-			e.w.Add(fmt.Sprintf("CRun %s %s", cq.Bytes(seen), cq.List([]string{anCoqStream(stages[0]), anCoqStream(stages[1])})), "run:charfilter:"+ce.name,
-				!bytes.Equal(seen, in.data), map[string]interface{}{"charfilter": ce.name, "class": in.class, "input": anQ(in.data)})
+			e.w.Add(fmt.Sprintf("CRun %s %s %s", analysisBytes(seen), analysisCoqStream(stages[0]), cq.List([]string{analysisBounds(stages[1])})), "run:charfilter:"+ce.name,
+				!bytes.Equal(seen, in.data), map[string]interface{}{"charfilter": ce.name, "class": in.class, "input": analysisQ(in.data)})
 		}
 	}
 }
@@ -790,10 +834,10 @@ func (e *anEngine) charFilters(per int) {
 // stream makes a token stream the way a pipeline would hand it to a filter: a bundled tokenizer
 // on generated text, sometimes followed by filters that create position gaps, lower-case the
 // terms or emit stacked tokens.
-func (e *anEngine) stream(lang string) (in anInput, text []byte, toks analysis.TokenStream) {
-	in = anGen(e.rng, lang)
+func (e *analysisEngine) stream(lang string) (in analysisInput, text []byte, toks analysis.TokenStream) {
+	in = analysisGen(e.rng, lang)
 	if e.rng.Intn(8) == 0 {
-		fx := anFixed()
+		fx := analysisFixed()
 		in = fx[e.rng.Intn(len(fx))]
 	}
 	text = append([]byte{}, in.data...)
@@ -832,7 +876,7 @@ func (e *anEngine) stream(lang string) (in anInput, text []byte, toks analysis.T
 
 // safeStream: stream() under recover (its ingredients are exercised elsewhere; a panic here is
 // reported there, with a component name)
-func (e *anEngine) safeStream(lang string) (in anInput, text []byte, snap []anTokSnap, ok bool) {
+func (e *analysisEngine) safeStream(lang string) (in analysisInput, text []byte, snap []analysisTokSnap, ok bool) {
 	defer func() {
 		if r := recover(); r != nil {
 			ok = false
@@ -840,57 +884,99 @@ func (e *anEngine) safeStream(lang string) (in anInput, text []byte, snap []anTo
 	}()
 	var toks analysis.TokenStream
 	in, text, toks = e.stream(lang)
-	return in, text, anSnapTokens(toks), true
+	return in, text, analysisSnapTokens(toks), true
 }
 
 // ---------------------------------------------------------------- (b) other token filters, called directly
 
-func (e *anEngine) otherFilters(per int) {
-	type ent struct {
-		name, lang string
-		mk         func() analysis.TokenFilter
+// oneFilterCall runs a (not exactly modelled) filter on one recorded stream: no panic, two runs
+// equal, tok_ok preserved; the stage goes to the Coq contract checker.
+func (e *analysisEngine) oneFilterCall(name string, mk func() analysis.TokenFilter, in analysisInput, text []byte, tin []analysisTokSnap) {
+	L := len(text)
+	invalid := analysisHasInvalidUTF8(tin)
+	var o1, o2 []analysisTokSnap
+	meta := map[string]interface{}{"filter": name, "class": in.class, "input": analysisQ(in.data), "tokens_in": analysisShowTokens(tin)}
+	if !e.guarded(name, in.class, meta, invalid, func() { o1 = analysisSnapTokens(mk().Filter(analysisThaw(text, tin))) }) {
+		return
 	}
-	var all []ent
-	for _, f := range anBundledTokenFilters() {
-		all = append(all, ent{f.name, f.lang, f.mk})
+	if !e.guarded(name, in.class, meta, invalid, func() { o2 = analysisSnapTokens(mk().Filter(analysisThaw(text, tin))) }) {
+		return
 	}
-	for _, ent0 := range all {
+	e.w.OracleEval(2)
+	if !analysisSnapsEqual(o1, o2) {
+		e.w.OracleFail(analysisKeyFor("determinism", name, invalid), "two runs of the filter on equal streams differ", meta)
+		return
+	}
+	inOK, _ := analysisTokOK(L, tin)
+	if inOK {
+		if ok, why := analysisTokOK(L, o1); !ok {
+			meta["tokens_out"] = analysisShowTokens(o1)
+			key := analysisKeyFor("offsets", name, invalid)
+			e.w.OracleFail(key, why, meta)
+			if key == "camelcase-offsets-invalid-utf8" {
+				// recorded finding: the case would only repeat it as a correspondence mismatch
+				e.w.Count("known_finding_cases_not_emitted", 1)
+			}
+			return
+		}
+	}
+	term := fmt.Sprintf("CStage %d %s %s", L, analysisBounds(tin), analysisBounds(o1))
+	if strings.HasPrefix(in.class, "probe:") {
+		if e.seen[term] { // many filters leave a hostile token alone: one case per distinct stage
+			e.w.Count("probe_stage_duplicates_not_emitted", 1)
+			return
+		}
+		e.seen[term] = true
+	}
+	e.w.Add(term, "stage:"+name, len(o1) > 0 && !analysisSnapsEqual(tin, o1), meta)
+}
+
+func (e *analysisEngine) otherFilters(per int) {
+	for _, f := range analysisBundledTokenFilters() {
 		for i := 0; i < per; i++ {
-			in, text, tin, ok := e.safeStream(ent0.lang)
+			in, text, tin, ok := e.safeStream(f.lang)
 			if !ok {
 				continue
 			}
-			L := len(text)
-			invalid := anHasInvalidUTF8(tin)
-			var o1, o2 []anTokSnap
-			meta := map[string]interface{}{"filter": ent0.name, "class": in.class, "input": anQ(in.data), "tokens_in": anShowTokens(tin)}
-			if !e.guarded(ent0.name, in.class, meta, invalid, func() { o1 = anSnapTokens(ent0.mk().Filter(anThaw(text, tin))) }) {
-				continue
-			}
-			if !e.guarded(ent0.name, in.class, meta, invalid, func() { o2 = anSnapTokens(ent0.mk().Filter(anThaw(text, tin))) }) {
-				continue
-			}
-			e.w.OracleEval(2)
-			if !anSnapsEqual(o1, o2) {
-				e.w.OracleFail(anKeyFor("determinism", ent0.name, invalid), "two runs of the filter on equal streams differ", meta)
-				continue
-			}
-			inOK, _ := anTokOK(L, tin)
-			if inOK {
-				if ok, why := anTokOK(L, o1); !ok {
-					meta["tokens_out"] = anShowTokens(o1)
-					e.w.OracleFail(anKeyFor("offsets", ent0.name, invalid), why, meta)
+			e.oneFilterCall(f.name, f.mk, in, text, tin)
+		}
+	}
+}
+
+// probes: fixed hostile inputs every (not exactly modelled) filter sees on every run, through
+// bundled tokenizers: the empty term, lone invalid bytes, an ideographic token with broken
+// encodings (regexp tokenizer), apostrophes only.
+func (e *analysisEngine) probes() {
+	type tkf struct {
+		name string
+		mk   func() analysis.Tokenizer
+	}
+	tks := []tkf{
+		{"single", func() analysis.Tokenizer { return tokenizer.NewSingleTokenTokenizer() }},
+		{"regexp-S", func() analysis.Tokenizer { return tokenizer.NewRegexpTokenizer(regexp.MustCompile(`\S+`)) }},
+	}
+	inputs := []string{"", "\xff", "a", "s", "'", "'s", "\xe2\x80", "漢\xff", "漢\xff x", "\xff漢字", "漢字\xe6 カ\xe3\x82", "ab\xff\xffCd", "é\xcc", "\xd9", "ى\xd9", "क\xe0\xa4"}
+	for _, f := range analysisBundledTokenFilters() {
+		for _, tk := range tks {
+			for _, s := range inputs {
+				in := analysisInput{"probe:" + tk.name, []byte(s)}
+				text := append([]byte{}, in.data...)
+				var tin []analysisTokSnap
+				if !e.guarded("tokenizer:"+tk.name, in.class, analysisQ(in.data), true, func() { tin = analysisSnapTokens(tk.mk().Tokenize(text)) }) {
 					continue
 				}
+				if len(tin) == 0 {
+					continue
+				}
+				e.oneFilterCall(f.name, f.mk, in, text, tin)
 			}
-			e.w.Add(fmt.Sprintf("CStage %d %s %s", L, anCoqStream(tin), anCoqStream(o1)), "stage:"+ent0.name, len(o1) > 0 && !anSnapsEqual(tin, o1), meta)
 		}
 	}
 }
 
 // ---------------------------------------------------------------- (a) exactly modelled filters
 
-func anTermRunes(ts []anTokSnap, visit func(r rune)) {
+func analysisTermRunes(ts []analysisTokSnap, visit func(r rune)) {
 	for _, t := range ts {
 		for i := 0; i < len(t.Term); {
 			r, sz := utf8.DecodeRune(t.Term[i:])
@@ -901,10 +987,10 @@ func anTermRunes(ts []anTokSnap, visit func(r rune)) {
 }
 
 // unicode.ToLower for the runes present (identity entries omitted: the model's default)
-func anLowerTable(ts []anTokSnap) string {
+func analysisLowerTable(ts []analysisTokSnap) string {
 	seen := map[rune]bool{}
 	var it []string
-	anTermRunes(ts, func(r rune) {
+	analysisTermRunes(ts, func(r rune) {
 		if !seen[r] {
 			seen[r] = true
 			if l := unicode.ToLower(r); l != r {
@@ -915,15 +1001,15 @@ func anLowerTable(ts []anTokSnap) string {
 	return cq.List(it)
 }
 
-func anIsMark(r rune) bool {
+func analysisIsMark(r rune) bool {
 	return unicode.Is(unicode.Mn, r) || unicode.Is(unicode.Me, r) || unicode.Is(unicode.Mc, r)
 }
 
-func anMarkList(ts []anTokSnap) string {
+func analysisMarkList(ts []analysisTokSnap) string {
 	seen := map[rune]bool{}
 	var it []string
-	anTermRunes(ts, func(r rune) {
-		if !seen[r] && anIsMark(r) {
+	analysisTermRunes(ts, func(r rune) {
+		if !seen[r] && analysisIsMark(r) {
 			seen[r] = true
 			it = append(it, cq.I(int(r)))
 		}
@@ -931,7 +1017,7 @@ func anMarkList(ts []anTokSnap) string {
 	return cq.List(it)
 }
 
-func anTermSet(ts []anTokSnap, member func([]byte) bool) string {
+func analysisTermSet(ts []analysisTokSnap, member func([]byte) bool) string {
 	seen := map[string]bool{}
 	var out [][]byte
 	for _, t := range ts {
@@ -942,15 +1028,15 @@ func anTermSet(ts []anTokSnap, member func([]byte) bool) string {
 			}
 		}
 	}
-	return cq.BytesList(out)
+	return analysisBytesList(out)
 }
 
-func anOneToken(term []byte) analysis.TokenStream {
+func analysisOneToken(term []byte) analysis.TokenStream {
 	return analysis.TokenStream{&analysis.Token{Start: 0, End: len(term), Term: append([]byte{}, term...), PositionIncr: 1}}
 }
 
 // the articles an elision filter knows, among the prefixes that end right before an apostrophe
-func anArticleSet(ts []anTokSnap, f *token.ElisionFilter) string {
+func analysisArticleSet(ts []analysisTokSnap, f *token.ElisionFilter) string {
 	seen := map[string]bool{}
 	var out [][]byte
 	for _, t := range ts {
@@ -963,14 +1049,14 @@ func anArticleSet(ts []anTokSnap, f *token.ElisionFilter) string {
 					// probe: prefix + ' + x comes back as x exactly when the prefix is an article
 					// (a prefix containing an earlier article+apostrophe is never looked up by the filter)
 					probe := append(append([]byte{}, pre...), '\'', 'x')
-					res := f.Filter(anOneToken(probe))
+					res := f.Filter(analysisOneToken(probe))
 					if len(res) == 1 && string(res[0].Term) == "x" {
 						inner := false
 						for j := 0; j < len(pre); {
 							r2, s2 := utf8.DecodeRune(pre[j:])
 							if r2 == '\'' || r2 == '’' {
 								p2 := append(append([]byte{}, pre[:j]...), '\'', 'x')
-								r3 := f.Filter(anOneToken(p2))
+								r3 := f.Filter(analysisOneToken(p2))
 								if len(r3) == 1 && string(r3[0].Term) == "x" {
 									inner = true
 								}
@@ -986,34 +1072,34 @@ func anArticleSet(ts []anTokSnap, f *token.ElisionFilter) string {
 			i += sz
 		}
 	}
-	return cq.BytesList(out)
+	return analysisBytesList(out)
 }
 
-type anExact struct {
+type analysisExact struct {
 	kind string
 	lang string
 	// run applies the filter to a thawed stream; term builds the Coq case from in/out
-	mk func(rng *rand.Rand, tin []anTokSnap) (f analysis.TokenFilter, caseFmt func(tin []anTokSnap, out []anTokSnap, panicked bool) string, canPanic bool, needOrdered bool)
+	mk func(rng *rand.Rand, tin []analysisTokSnap) (f analysis.TokenFilter, caseFmt func(tin []analysisTokSnap, out []analysisTokSnap, panicked bool) string, canPanic bool, needOrdered bool)
 }
 
-func (e *anEngine) exactFilters(per int) {
-	stopF := anBundledStopFilters()
-	elF := anBundledElisionFilters()
+func (e *analysisEngine) exactFilters(per int) {
+	stopF := analysisBundledStopFilters()
+	elF := analysisBundledElisionFilters()
 	seps := []string{" ", "", "_", "‌"}
-	exacts := []anExact{
-		{"length", "", func(rng *rand.Rand, tin []anTokSnap) (analysis.TokenFilter, func([]anTokSnap, []anTokSnap, bool) string, bool, bool) {
+	exacts := []analysisExact{
+		{"length", "", func(rng *rand.Rand, tin []analysisTokSnap) (analysis.TokenFilter, func([]analysisTokSnap, []analysisTokSnap, bool) string, bool, bool) {
 			mn, mx := rng.Intn(6), rng.Intn(9)
-			return token.NewLengthFilter(mn, mx), func(i, o []anTokSnap, _ bool) string {
-				return fmt.Sprintf("CLength %d %d %s %s", mn, mx, anCoqStream(i), anCoqStream(o))
+			return token.NewLengthFilter(mn, mx), func(i, o []analysisTokSnap, _ bool) string {
+				return fmt.Sprintf("CLength %d %d %s %s", mn, mx, analysisCoqStream(i), analysisCoqStream(o))
 			}, false, false
 		}},
-		{"truncate", "", func(rng *rand.Rand, tin []anTokSnap) (analysis.TokenFilter, func([]anTokSnap, []anTokSnap, bool) string, bool, bool) {
+		{"truncate", "", func(rng *rand.Rand, tin []analysisTokSnap) (analysis.TokenFilter, func([]analysisTokSnap, []analysisTokSnap, bool) string, bool, bool) {
 			n := []int{0, 1, 2, 3, 4, 5, 6, 10}[rng.Intn(8)]
-			return token.NewTruncateTokenFilter(n), func(i, o []anTokSnap, p bool) string {
-				return fmt.Sprintf("CTruncate %d %s %s", n, anCoqStream(i), anCoqOptStream(o, p))
+			return token.NewTruncateTokenFilter(n), func(i, o []analysisTokSnap, p bool) string {
+				return fmt.Sprintf("CTruncate %d %s %s", n, analysisCoqStream(i), analysisCoqOptStream(o, p))
 			}, false, false
 		}},
-		{"stop", "", func(rng *rand.Rand, tin []anTokSnap) (analysis.TokenFilter, func([]anTokSnap, []anTokSnap, bool) string, bool, bool) {
+		{"stop", "", func(rng *rand.Rand, tin []analysisTokSnap) (analysis.TokenFilter, func([]analysisTokSnap, []analysisTokSnap, bool) string, bool, bool) {
 			var f *token.StopTokensFilter
 			if rng.Intn(3) == 0 { // a custom map drawn from the stream
 				m := analysis.NewTokenMap()
@@ -1028,17 +1114,17 @@ func (e *anEngine) exactFilters(per int) {
 			}
 			probe := stopF[0].mk
 			_ = probe
-			return f, func(i, o []anTokSnap, _ bool) string {
-				set := anTermSet(i, func(term []byte) bool { return len(f.Filter(anOneToken(term))) == 0 })
-				return fmt.Sprintf("CStop %s %s %s", set, anCoqStream(i), anCoqStream(o))
+			return f, func(i, o []analysisTokSnap, _ bool) string {
+				set := analysisTermSet(i, func(term []byte) bool { return len(f.Filter(analysisOneToken(term))) == 0 })
+				return fmt.Sprintf("CStop %s %s %s", set, analysisCoqStream(i), analysisCoqStream(o))
 			}, false, false
 		}},
-		{"unique", "", func(rng *rand.Rand, tin []anTokSnap) (analysis.TokenFilter, func([]anTokSnap, []anTokSnap, bool) string, bool, bool) {
-			return token.NewUniqueTermFilter(), func(i, o []anTokSnap, _ bool) string {
-				return fmt.Sprintf("CUnique %s %s", anCoqStream(i), anCoqStream(o))
+		{"unique", "", func(rng *rand.Rand, tin []analysisTokSnap) (analysis.TokenFilter, func([]analysisTokSnap, []analysisTokSnap, bool) string, bool, bool) {
+			return token.NewUniqueTermFilter(), func(i, o []analysisTokSnap, _ bool) string {
+				return fmt.Sprintf("CUnique %s %s", analysisCoqStream(i), analysisCoqStream(o))
 			}, false, false
 		}},
-		{"keyword", "", func(rng *rand.Rand, tin []anTokSnap) (analysis.TokenFilter, func([]anTokSnap, []anTokSnap, bool) string, bool, bool) {
+		{"keyword", "", func(rng *rand.Rand, tin []analysisTokSnap) (analysis.TokenFilter, func([]analysisTokSnap, []analysisTokSnap, bool) string, bool, bool) {
 			m := analysis.NewTokenMap()
 			for _, t := range tin {
 				if rng.Intn(3) == 0 {
@@ -1046,56 +1132,56 @@ func (e *anEngine) exactFilters(per int) {
 				}
 			}
 			f := token.NewKeyWordMarkerFilter(m)
-			return f, func(i, o []anTokSnap, _ bool) string {
-				set := anTermSet(i, func(term []byte) bool { r := f.Filter(anOneToken(term)); return len(r) == 1 && r[0].KeyWord })
-				return fmt.Sprintf("CKeyword %s %s %s", set, anCoqStream(i), anCoqStream(o))
+			return f, func(i, o []analysisTokSnap, _ bool) string {
+				set := analysisTermSet(i, func(term []byte) bool { r := f.Filter(analysisOneToken(term)); return len(r) == 1 && r[0].KeyWord })
+				return fmt.Sprintf("CKeyword %s %s %s", set, analysisCoqStream(i), analysisCoqStream(o))
 			}, false, false
 		}},
-		{"lowercase", "", func(rng *rand.Rand, tin []anTokSnap) (analysis.TokenFilter, func([]anTokSnap, []anTokSnap, bool) string, bool, bool) {
-			return token.NewLowerCaseFilter(), func(i, o []anTokSnap, p bool) string {
-				return fmt.Sprintf("CLower %s %s %s", anLowerTable(i), anCoqStream(i), anCoqOptStream(o, p))
+		{"lowercase", "", func(rng *rand.Rand, tin []analysisTokSnap) (analysis.TokenFilter, func([]analysisTokSnap, []analysisTokSnap, bool) string, bool, bool) {
+			return token.NewLowerCaseFilter(), func(i, o []analysisTokSnap, p bool) string {
+				return fmt.Sprintf("CLower %s %s %s", analysisLowerTable(i), analysisCoqStream(i), analysisCoqOptStream(o, p))
 			}, false, false
 		}},
-		{"ngram", "", func(rng *rand.Rand, tin []anTokSnap) (analysis.TokenFilter, func([]anTokSnap, []anTokSnap, bool) string, bool, bool) {
+		{"ngram", "", func(rng *rand.Rand, tin []analysisTokSnap) (analysis.TokenFilter, func([]analysisTokSnap, []analysisTokSnap, bool) string, bool, bool) {
 			mn := rng.Intn(4)
 			mx := mn + rng.Intn(3)
 			if rng.Intn(10) == 0 {
 				mx = mn - 1
 			}
-			return token.NewNgramFilter(mn, mx), func(i, o []anTokSnap, p bool) string {
-				return fmt.Sprintf("CNgram %d %s %s %s", mn, cq.I(mx), anCoqStream(i), anCoqOptStream(o, p))
+			return token.NewNgramFilter(mn, mx), func(i, o []analysisTokSnap, p bool) string {
+				return fmt.Sprintf("CNgram %d %s %s %s", mn, cq.I(mx), analysisCoqStream(i), analysisCoqOptStream(o, p))
 			}, false, false
 		}},
-		{"edgengram", "", func(rng *rand.Rand, tin []anTokSnap) (analysis.TokenFilter, func([]anTokSnap, []anTokSnap, bool) string, bool, bool) {
+		{"edgengram", "", func(rng *rand.Rand, tin []analysisTokSnap) (analysis.TokenFilter, func([]analysisTokSnap, []analysisTokSnap, bool) string, bool, bool) {
 			mn := rng.Intn(4)
 			mx := mn + rng.Intn(4)
 			back := rng.Intn(2) == 0
-			return token.NewEdgeNgramFilter(token.Side(back), mn, mx), func(i, o []anTokSnap, p bool) string {
-				return fmt.Sprintf("CEdge %s %d %d %s %s", cq.B(back), mn, mx, anCoqStream(i), anCoqOptStream(o, p))
+			return token.NewEdgeNgramFilter(token.Side(back), mn, mx), func(i, o []analysisTokSnap, p bool) string {
+				return fmt.Sprintf("CEdge %s %d %d %s %s", cq.B(back), mn, mx, analysisCoqStream(i), analysisCoqOptStream(o, p))
 			}, false, false
 		}},
-		{"reverse", "", func(rng *rand.Rand, tin []anTokSnap) (analysis.TokenFilter, func([]anTokSnap, []anTokSnap, bool) string, bool, bool) {
-			return token.NewReverseFilter(), func(i, o []anTokSnap, p bool) string {
-				return fmt.Sprintf("CReverse %s %s %s %s", cq.B(anReverseFixed), anMarkList(i), anCoqStream(i), anCoqOptStream(o, p))
+		{"reverse", "", func(rng *rand.Rand, tin []analysisTokSnap) (analysis.TokenFilter, func([]analysisTokSnap, []analysisTokSnap, bool) string, bool, bool) {
+			return token.NewReverseFilter(), func(i, o []analysisTokSnap, p bool) string {
+				return fmt.Sprintf("CReverse %s %s %s %s", cq.B(analysisReverseFixed), analysisMarkList(i), analysisCoqStream(i), analysisCoqOptStream(o, p))
 			}, false, false
 		}},
-		{"apostrophe", "tr", func(rng *rand.Rand, tin []anTokSnap) (analysis.TokenFilter, func([]anTokSnap, []anTokSnap, bool) string, bool, bool) {
-			return token.NewApostropheFilter(), func(i, o []anTokSnap, _ bool) string {
-				return fmt.Sprintf("CApostrophe %s %s", anCoqStream(i), anCoqStream(o))
+		{"apostrophe", "tr", func(rng *rand.Rand, tin []analysisTokSnap) (analysis.TokenFilter, func([]analysisTokSnap, []analysisTokSnap, bool) string, bool, bool) {
+			return token.NewApostropheFilter(), func(i, o []analysisTokSnap, _ bool) string {
+				return fmt.Sprintf("CApostrophe %s %s", analysisCoqStream(i), analysisCoqStream(o))
 			}, false, false
 		}},
-		{"elision", "fr", func(rng *rand.Rand, tin []anTokSnap) (analysis.TokenFilter, func([]anTokSnap, []anTokSnap, bool) string, bool, bool) {
+		{"elision", "elision", func(rng *rand.Rand, tin []analysisTokSnap) (analysis.TokenFilter, func([]analysisTokSnap, []analysisTokSnap, bool) string, bool, bool) {
 			var f *token.ElisionFilter
 			if rng.Intn(3) == 0 {
-				f = token.NewElisionFilter(anTokenMapOf("l", "d", "qu", "L", "dell", "un", "l'l", ""))
+				f = token.NewElisionFilter(analysisTokenMapOf("l", "d", "qu", "L", "dell", "un", "l'l", ""))
 			} else {
 				f = elF[rng.Intn(len(elF))].mk()
 			}
-			return f, func(i, o []anTokSnap, _ bool) string {
-				return fmt.Sprintf("CElision %s %s %s", anArticleSet(i, f), anCoqStream(i), anCoqStream(o))
+			return f, func(i, o []analysisTokSnap, _ bool) string {
+				return fmt.Sprintf("CElision %s %s %s", analysisArticleSet(i, f), analysisCoqStream(i), analysisCoqStream(o))
 			}, false, false
 		}},
-		{"shingle", "", func(rng *rand.Rand, tin []anTokSnap) (analysis.TokenFilter, func([]anTokSnap, []anTokSnap, bool) string, bool, bool) {
+		{"shingle", "", func(rng *rand.Rand, tin []analysisTokSnap) (analysis.TokenFilter, func([]analysisTokSnap, []analysisTokSnap, bool) string, bool, bool) {
 			mn := 1 + rng.Intn(3)
 			mx := mn + rng.Intn(3)
 			if rng.Intn(12) == 0 {
@@ -1104,8 +1190,8 @@ func (e *anEngine) exactFilters(per int) {
 			oo := rng.Intn(2) == 0
 			sep := seps[rng.Intn(len(seps))]
 			fill := []string{"_", "", "‌‌"}[rng.Intn(3)]
-			return token.NewShingleFilter(mn, mx, oo, sep, fill), func(i, o []anTokSnap, p bool) string {
-				return fmt.Sprintf("CShingle %d %d %s %s %s %s %s", mn, mx, cq.B(oo), cq.Str(sep), cq.Str(fill), anCoqStream(i), anCoqOptStream(o, p))
+			return token.NewShingleFilter(mn, mx, oo, sep, fill), func(i, o []analysisTokSnap, p bool) string {
+				return fmt.Sprintf("CShingle %d %d %s %s %s %s %s", mn, mx, cq.B(oo), analysisBytes([]byte(sep)), analysisBytes([]byte(fill)), analysisCoqStream(i), analysisCoqOptStream(o, p))
 			}, false, true
 		}},
 	}
@@ -1123,39 +1209,39 @@ func (e *anEngine) exactFilters(per int) {
 			}
 			L := len(text)
 			f, mkCase, _, needOrdered := ex.mk(e.rng, tin)
-			invalid := anHasInvalidUTF8(tin)
-			meta := map[string]interface{}{"filter": fmt.Sprintf("%s %+v", ex.kind, f), "class": in.class, "input": anQ(in.data), "tokens_in": anShowTokens(tin)}
-			var o1, o2 []anTokSnap
-			ok1 := e.guarded("exact:"+ex.kind, in.class, meta, invalid, func() { o1 = anSnapTokens(f.Filter(anThaw(text, tin))) })
+			invalid := analysisHasInvalidUTF8(tin)
+			meta := map[string]interface{}{"filter": fmt.Sprintf("%s %+v", ex.kind, f), "class": in.class, "input": analysisQ(in.data), "tokens_in": analysisShowTokens(tin)}
+			var o1, o2 []analysisTokSnap
+			ok1 := e.guarded("exact:"+ex.kind, in.class, meta, invalid, func() { o1 = analysisSnapTokens(f.Filter(analysisThaw(text, tin))) })
 			if ok1 {
-				ok2 := e.guarded("exact:"+ex.kind, in.class, meta, invalid, func() { o2 = anSnapTokens(f.Filter(anThaw(text, tin))) })
+				ok2 := e.guarded("exact:"+ex.kind, in.class, meta, invalid, func() { o2 = analysisSnapTokens(f.Filter(analysisThaw(text, tin))) })
 				e.w.OracleEval(1)
-				if !ok2 || !anSnapsEqual(o1, o2) {
-					e.w.OracleFail(anKeyFor("determinism", "exact:"+ex.kind, invalid), "two runs of the filter on equal streams differ", meta)
+				if !ok2 || !analysisSnapsEqual(o1, o2) {
+					e.w.OracleFail(analysisKeyFor("determinism", "exact:"+ex.kind, invalid), "two runs of the filter on equal streams differ", meta)
 					continue
 				}
-				inOK, _ := anTokOK(L, tin)
-				if inOK && (!needOrdered || anOrderedSnap(tin)) {
+				inOK, _ := analysisTokOK(L, tin)
+				if inOK && (!needOrdered || analysisOrderedSnap(tin)) {
 					e.w.OracleEval(1)
-					if ok, why := anTokOK(L, o1); !ok {
-						meta["tokens_out"] = anShowTokens(o1)
-						e.w.OracleFail(anKeyFor("offsets", "exact:"+ex.kind, invalid), why, meta)
+					if ok, why := analysisTokOK(L, o1); !ok {
+						meta["tokens_out"] = analysisShowTokens(o1)
+						e.w.OracleFail(analysisKeyFor("offsets", "exact:"+ex.kind, invalid), why, meta)
 					}
 				}
 			}
 			// the case is written even after a panic: the model must panic on the same input
-			e.w.Add(mkCase(tin, o1, !ok1), "exact:"+ex.kind, len(o1) > 0 && !anSnapsEqual(tin, o1), meta)
+			e.w.Add(mkCase(tin, o1, !ok1), "exact:"+ex.kind, len(o1) > 0 && !analysisSnapsEqual(tin, o1), meta)
 		}
 	}
 }
 
-// anReverseFixed: reverse.go takes the width of a rune from the bytes (repaired) rather than
+// analysisReverseFixed: reverse.go takes the width of a rune from the bytes (repaired) rather than
 // from utf8.RuneLen of the decoded rune (as pinned); see Filters.v reverse_loop
-var anReverseFixed = false
+var analysisReverseFixed = true
 
 // ---------------------------------------------------------------- TokenFrequency / Document.Analyze
 
-func anCoqFreqs(tfs analysis.TokenFrequencies) string {
+func analysisCoqFreqs(tfs analysis.TokenFrequencies) string {
 	keys := make([]string, 0, len(tfs))
 	for k := range tfs {
 		keys = append(keys, k)
@@ -1168,12 +1254,12 @@ func anCoqFreqs(tfs analysis.TokenFrequencies) string {
 		for i, l := range tf.Locations {
 			locs[i] = fmt.Sprintf("(%s, %s, %s)", cq.I(l.StartVal), cq.I(l.EndVal), cq.I(l.PositionVal))
 		}
-		it = append(it, fmt.Sprintf("(%s, %s, %s)", cq.Bytes(tf.TermVal), cq.List(locs), cq.I(tf.Frequency())))
+		it = append(it, fmt.Sprintf("(%s, %s, %s)", analysisBytes(tf.TermVal), cq.List(locs), cq.I(tf.Frequency())))
 	}
 	return cq.List(it)
 }
 
-var anSmallAnalyzers = []func() *analysis.Analyzer{
+var analysisSmallAnalyzers = []func() *analysis.Analyzer{
 	analyzer.NewStandardAnalyzer, analyzer.NewSimpleAnalyzer, analyzer.NewKeywordAnalyzer, en.NewAnalyzer, fr.Analyzer, cjk.Analyzer,
 	func() *analysis.Analyzer {
 		return &analysis.Analyzer{Tokenizer: tokenizer.NewWhitespaceTokenizer(), TokenFilters: []analysis.TokenFilter{token.NewEdgeNgramFilter(token.FRONT, 1, 3)}}
@@ -1183,34 +1269,34 @@ var anSmallAnalyzers = []func() *analysis.Analyzer{
 	},
 }
 
-func (e *anEngine) freqs(n int) {
+func (e *analysisEngine) freqs(n int) {
 	for i := 0; i < n; i++ {
-		in := anGen(e.rng, []string{"en", "fr", "cjk", "ru", ""}[e.rng.Intn(5)])
-		mk := anSmallAnalyzers[e.rng.Intn(len(anSmallAnalyzers))]
+		in := analysisGen(e.rng, []string{"en", "fr", "cjk", "ru", ""}[e.rng.Intn(5)])
+		mk := analysisSmallAnalyzers[e.rng.Intn(len(analysisSmallAnalyzers))]
 		var toks analysis.TokenStream
-		if !e.guarded("freq/Analyze", in.class, anQ(in.data), false, func() { toks = mk().Analyze(append([]byte{}, in.data...)) }) {
+		if !e.guarded("freq/Analyze", in.class, analysisQ(in.data), false, func() { toks = mk().Analyze(append([]byte{}, in.data...)) }) {
 			continue
 		}
-		snap := anSnapTokens(toks)
+		snap := analysisSnapTokens(toks)
 		tv := e.rng.Intn(4) != 0
 		start := []int{0, 0, 1, 7, 100, 101, 1000}[e.rng.Intn(7)]
 		var tfs analysis.TokenFrequencies
 		var pos int
-		if !e.guarded("TokenFrequency", in.class, anQ(in.data), false, func() { tfs, pos = analysis.TokenFrequency(toks, tv, start) }) {
+		if !e.guarded("TokenFrequency", in.class, analysisQ(in.data), false, func() { tfs, pos = analysis.TokenFrequency(toks, tv, start) }) {
 			continue
 		}
 		// oracle: the clauses of freq_positions directly on the implementation
 		e.w.OracleEval(1)
-		if why := anFreqOracle(snap, tv, start, tfs, pos); why != "" {
-			e.w.OracleFail("freq-positions", why, map[string]interface{}{"class": in.class, "input": anQ(in.data), "tv": tv, "start": start})
+		if why := analysisFreqOracle(snap, tv, start, tfs, pos); why != "" {
+			e.w.OracleFail("freq-positions", why, map[string]interface{}{"class": in.class, "input": analysisQ(in.data), "tv": tv, "start": start})
 			continue
 		}
-		e.w.Add(fmt.Sprintf("CFreq %s %s %d %s %s", anCoqStream(snap), cq.B(tv), start, anCoqFreqs(tfs), cq.I(pos)), "freq", len(snap) > 1,
-			map[string]interface{}{"class": in.class, "input": anQ(in.data), "tv": tv, "start": start, "tokens": len(snap)})
+		e.w.Add(fmt.Sprintf("CFreq %s %s %d %s %s", analysisCoqStream(snap), cq.B(tv), start, analysisCoqFreqs(tfs), cq.I(pos)), "freq", len(snap) > 1,
+			map[string]interface{}{"class": in.class, "input": analysisQ(in.data), "tv": tv, "start": start, "tokens": len(snap)})
 	}
 }
 
-func anFreqOracle(snap []anTokSnap, tv bool, start int, tfs analysis.TokenFrequencies, pos int) string {
+func analysisFreqOracle(snap []analysisTokSnap, tv bool, start int, tfs analysis.TokenFrequencies, pos int) string {
 	count := map[string]int{}
 	for _, t := range snap {
 		count[string(t.Term)]++
@@ -1247,7 +1333,7 @@ func anFreqOracle(snap []anTokSnap, tv bool, start int, tfs analysis.TokenFreque
 	return ""
 }
 
-func (e *anEngine) docs(n int) {
+func (e *analysisEngine) docs(n int) {
 	for i := 0; i < n; i++ {
 		nf := 1 + e.rng.Intn(4)
 		var doc bluge.Document
@@ -1256,8 +1342,8 @@ func (e *anEngine) docs(n int) {
 		bad := false
 		for j := 0; j < nf; j++ {
 			name := []string{"a", "a", "b"}[e.rng.Intn(3)]
-			in := anGen(e.rng, []string{"en", "fr", "cjk", ""}[e.rng.Intn(4)])
-			mk := anSmallAnalyzers[e.rng.Intn(len(anSmallAnalyzers))]
+			in := analysisGen(e.rng, []string{"en", "fr", "cjk", ""}[e.rng.Intn(4)])
+			mk := analysisSmallAnalyzers[e.rng.Intn(len(analysisSmallAnalyzers))]
 			fld := bluge.NewTextFieldBytes(name, append([]byte{}, in.data...)).WithAnalyzer(mk())
 			tv := e.rng.Intn(3) != 0
 			if tv {
@@ -1276,12 +1362,12 @@ func (e *anEngine) docs(n int) {
 				fld.FieldOptions = bluge.Store
 				indexed, tv = false, false
 			}
-			var toks []anTokSnap
-			if !e.guarded("doc/Analyze", in.class, anQ(in.data), false, func() { toks = anSnapTokens(mk().Analyze(append([]byte{}, in.data...))) }) {
+			var toks []analysisTokSnap
+			if !e.guarded("doc/Analyze", in.class, analysisQ(in.data), false, func() { toks = analysisSnapTokens(mk().Analyze(append([]byte{}, in.data...))) }) {
 				bad = true
 				break
 			}
-			fields = append(fields, fmt.Sprintf("Field %s %s %d %s %s", cq.Str(name), cq.B(indexed), gap, cq.B(tv), anCoqStream(toks)))
+			fields = append(fields, fmt.Sprintf("Field %s %s %d %s %s", analysisBytes([]byte(name)), cq.B(indexed), gap, cq.B(tv), analysisCoqStream(toks)))
 			doc = append(doc, fld)
 			fobj = append(fobj, fld)
 		}
@@ -1296,7 +1382,7 @@ func (e *anEngine) docs(n int) {
 			if !f.Index() {
 				outs[j] = cq.None()
 			} else {
-				outs[j] = cq.Some(anCoqFreqs(f.AnalyzedTokenFrequencies()))
+				outs[j] = cq.Some(analysisCoqFreqs(f.AnalyzedTokenFrequencies()))
 			}
 		}
 		e.w.Add(fmt.Sprintf("CDoc %s %s", cq.List(fields), cq.List(outs)), "doc", nf > 1, map[string]interface{}{"fields": nf})
@@ -1307,7 +1393,7 @@ func (e *anEngine) docs(n int) {
 
 // matchOwnText indexes one document whose field text is `data` and asks for it back with its
 // own text: (hits, tokens, error)
-func anMatchOwnText(mk func() *analysis.Analyzer, data []byte) (hits int, ntok int, err error) {
+func analysisMatchOwnText(mk func() *analysis.Analyzer, data []byte) (hits int, ntok int, err error) {
 	ntok = len(mk().Analyze(append([]byte{}, data...)))
 	wr, err := bluge.OpenWriter(bluge.InMemoryOnlyConfig())
 	if err != nil {
@@ -1338,13 +1424,13 @@ func anMatchOwnText(mk func() *analysis.Analyzer, data []byte) (hits int, ntok i
 	return hits, ntok, err
 }
 
-func (e *anEngine) matchRoundTrip(per int) {
+func (e *analysisEngine) matchRoundTrip(per int) {
 	type ent struct {
 		name string
 		mk   func() *analysis.Analyzer
 	}
 	var all []ent
-	for _, a := range anBundledAnalyzers() {
+	for _, a := range analysisBundledAnalyzers() {
 		all = append(all, ent{a.name, a.mk})
 	}
 	// configurable filters inside an analyzer
@@ -1363,26 +1449,26 @@ func (e *anEngine) matchRoundTrip(per int) {
 			return &analysis.Analyzer{Tokenizer: tokenizer.NewSingleTokenTokenizer(), TokenFilters: []analysis.TokenFilter{token.NewTruncateTokenFilter(5), token.NewLowerCaseFilter()}}
 		}},
 	)
-	fixed := anFixed()
+	fixed := analysisFixed()
 	for _, a := range all {
 		for k := 0; k < per; k++ {
-			var in anInput
+			var in analysisInput
 			if k < 4 {
 				in = fixed[(k*5+len(a.name))%len(fixed)]
 			} else {
-				in = anGen(e.rng, a.name)
+				in = analysisGen(e.rng, a.name)
 			}
 			if len(in.data) > 400 {
 				in.data = in.data[:400]
 			}
 			var hits, ntok int
 			var err error
-			if !e.guarded(a.name+"/index+match", in.class, anQ(in.data), false, func() { hits, ntok, err = anMatchOwnText(a.mk, in.data) }) {
+			if !e.guarded(a.name+"/index+match", in.class, analysisQ(in.data), false, func() { hits, ntok, err = analysisMatchOwnText(a.mk, in.data) }) {
 				continue
 			}
 			e.w.Count("match_round_trips", 1)
 			if err != nil {
-				e.w.OracleFail(anKeyFor("match-error", a.name, false), err.Error(), map[string]interface{}{"analyzer": a.name, "input": anQ(in.data)})
+				e.w.OracleFail(analysisKeyFor("match-error", a.name, false), err.Error(), map[string]interface{}{"analyzer": a.name, "input": analysisQ(in.data)})
 				continue
 			}
 			if ntok == 0 {
@@ -1390,8 +1476,8 @@ func (e *anEngine) matchRoundTrip(per int) {
 				continue
 			}
 			if hits != 1 {
-				e.w.OracleFail(anKeyFor("match-own-text", a.name, false), fmt.Sprintf("a match query (AND) with the document's own text found %d documents; the analysis yields %d tokens", hits, ntok),
-					map[string]interface{}{"analyzer": a.name, "class": in.class, "input": anQ(in.data)})
+				e.w.OracleFail(analysisKeyFor("match-own-text", a.name, false), fmt.Sprintf("a match query (AND) with the document's own text found %d documents; the analysis yields %d tokens", hits, ntok),
+					map[string]interface{}{"analyzer": a.name, "class": in.class, "input": analysisQ(in.data)})
 			}
 		}
 	}
@@ -1399,27 +1485,27 @@ func (e *anEngine) matchRoundTrip(per int) {
 
 // ---------------------------------------------------------------- witnesses of the _refuted theorems, replayed
 
-func (e *anEngine) witnesses() {
+func (e *analysisEngine) witnesses() {
 	// shingle_preserves_refuted (FiltersProofs.v): offsets that run backwards make start > end
 	{
-		tin := []anTokSnap{{5, 8, []byte("a"), 1, 0, false}, {0, 2, []byte("b"), 1, 0, false}}
-		var out []anTokSnap
+		tin := []analysisTokSnap{{5, 8, []byte("a"), 1, 0, false}, {0, 2, []byte("b"), 1, 0, false}}
+		var out []analysisTokSnap
 		if e.guarded("exact:shingle", "witness", "unordered offsets", false, func() {
-			out = anSnapTokens(token.NewShingleFilter(2, 2, false, " ", "_").Filter(anThaw(nil, tin)))
+			out = analysisSnapTokens(token.NewShingleFilter(2, 2, false, " ", "_").Filter(analysisThaw(nil, tin)))
 		}) {
-			e.w.Add(fmt.Sprintf("CShingle 2 2 false %s %s %s %s", cq.Str(" "), cq.Str("_"), anCoqStream(tin), anCoqOptStream(out, false)), "witness:shingle-unordered", true,
-				map[string]interface{}{"tokens_in": anShowTokens(tin), "tokens_out": anShowTokens(out)})
+			e.w.Add(fmt.Sprintf("CShingle 2 2 false %s %s %s %s", analysisBytes([]byte(" ")), analysisBytes([]byte("_")), analysisCoqStream(tin), analysisCoqOptStream(out, false)), "witness:shingle-unordered", true,
+				map[string]interface{}{"tokens_in": analysisShowTokens(tin), "tokens_out": analysisShowTokens(out)})
 		}
 	}
 	// lowercase: a narrower replacement followed by unchanged runes keeps stale bytes (Kelvin sign)
 	{
-		tin := []anTokSnap{{0, 8, []byte("Kelvin"), 1, 0, false}}
-		var out []anTokSnap
+		tin := []analysisTokSnap{{0, 8, []byte("Kelvin"), 1, 0, false}}
+		var out []analysisTokSnap
 		if e.guarded("exact:lowercase", "witness", "Kelvin sign", false, func() {
-			out = anSnapTokens(token.NewLowerCaseFilter().Filter(anThaw([]byte("Kelvin"), tin)))
+			out = analysisSnapTokens(token.NewLowerCaseFilter().Filter(analysisThaw([]byte("Kelvin"), tin)))
 		}) {
-			e.w.Add(fmt.Sprintf("CLower %s %s %s", anLowerTable(tin), anCoqStream(tin), anCoqOptStream(out, false)), "witness:lowercase-stale-bytes", true,
-				map[string]interface{}{"tokens_out": anShowTokens(out)})
+			e.w.Add(fmt.Sprintf("CLower %s %s %s", analysisLowerTable(tin), analysisCoqStream(tin), analysisCoqOptStream(out, false)), "witness:lowercase-stale-bytes", true,
+				map[string]interface{}{"tokens_out": analysisShowTokens(out)})
 		}
 	}
 }
@@ -1427,13 +1513,14 @@ func (e *anEngine) witnesses() {
 // ---------------------------------------------------------------- entry point
 
 func runAnalysis(o Opts) error {
-	e := &anEngine{o: o, rng: rand.New(rand.NewSource(o.Seed))}
-	e.w = cq.New(o.Out, "From Bluge Require Import Base.Res Analysis.Pipeline Analysis.Freq Analysis.AnalysisCorr.", "acase", 150)
+	e := &analysisEngine{o: o, rng: rand.New(rand.NewSource(o.Seed)), seen: map[string]bool{}}
+	e.w = cq.New(o.Out, "From Bluge Require Import Base.Res Analysis.Pipeline Analysis.Freq Analysis.AnalysisCorr.", "acase", 200)
 	scale := 1
 	if o.Thorough() {
 		scale = 10
 	}
 	e.witnesses()
+	e.probes()
 	e.analyzers(14 * scale)
 	e.tokenizers(10 * scale)
 	e.charFilters(6 * scale)
